@@ -458,6 +458,7 @@ func (c e2eCfg) options(server bool) *rpc.Options {
 
 func runE2E(cfg e2eCfg, ops []e2eOp) *e2eRun {
 	run := &e2eRun{cfg: cfg, ops: ops, outs: map[int]*e2eOutcome{}}
+	rtCalls.Range(func(k, _ interface{}) bool { rtCalls.Delete(k); return true })
 	srv := &e2eSrv{streamIn: map[int][]string{}, hExit: map[int]string{}}
 	run.srv = srv
 	g0 := gate.Goroutines()
@@ -709,6 +710,9 @@ func classifyE2E(err error) string {
 	return classify(err)
 }
 
+// rtCalls: the Call object each worker of the running scenario reuses for its RoundTrips.
+var rtCalls sync.Map
+
 func doE2EOp(cfg e2eCfg, conn *rpc.Conn, rt rpc.RoundTripper, client *rpc.Client, addr string, o e2eOp) *e2eOutcome {
 	out := &e2eOutcome{id: o.ID}
 	switch o.Form {
@@ -774,7 +778,16 @@ func doE2EOp(cfg e2eCfg, conn *rpc.Conn, rt rpc.RoundTripper, client *rpc.Client
 		<-c.Done
 		err = c.Error
 	case "rt":
-		c := &rpc.Call{ServiceMethod: o.Method, Args: args, Reply: reply, Done: make(chan *rpc.Call, 1)}
+		// a caller may keep one Call object of its own and send it again (Call is exported, RoundTrip
+		// takes it as it is): each worker does, so that whatever the library leaves in it meets the next use
+		var c *rpc.Call
+		if v, ok := rtCalls.Load(o.Worker); ok {
+			c = v.(*rpc.Call)
+			c.ServiceMethod, c.Args, c.Reply, c.Error, c.Done = o.Method, args, reply, nil, make(chan *rpc.Call, 1)
+		} else {
+			c = &rpc.Call{ServiceMethod: o.Method, Args: args, Reply: reply, Done: make(chan *rpc.Call, 1)}
+			rtCalls.Store(o.Worker, c)
+		}
 		switch {
 		case client != nil:
 			client.RoundTrip(c)
